@@ -319,6 +319,141 @@ def check_tween(case, mo):
     return mism, viol, got
 
 
+# ------------------------------------------------------------------------------------------------------
+# tween HISTORIES: several commits on one configurator; a later round may re-add an existing tween name with other
+# hints (across commits that is not a conflict: "a re-added name replaces the earlier one").  After every round the
+# implicit chain is asked for AND a fresh application is built and called, so that anything remembered from an earlier
+# round (a memoised chain, a stale sorter field) shows.  The model is a function of the declarations made so far.
+
+def gen_tween_history(rng):
+    npool = rng.randint(2, 5)
+    rounds = []
+    for r in range(rng.choice([2, 2, 3, 3, 4])):
+        k = rng.randint(1, min(3, npool))
+        ops = []
+        for n in rng.sample(range(2, 2 + npool), k):
+            a = gen_constraint(rng, npool); b = gen_constraint(rng, npool)
+            ops.append([n, a and a[0], b and b[0], bool(a and a[1]), bool(b and b[1])])
+        rounds.append(ops)
+    return {'flavour': 'tween', 'rounds': rounds, 'explicit': []}
+
+
+def history_prefix(case, k):
+    ops = [op for r in case['rounds'][:k + 1] for op in r]
+    return {'flavour': 'tween', 'ops': ops, 'explicit': []}
+
+
+def impl_tween_history(case):
+    from pyramid.config import Configurator
+    from pyramid.tweens import EXCVIEW, INGRESS, MAIN
+    from pyramid.interfaces import ITweens
+    from pyramid.request import Request
+    from pyramid.response import Response
+    m = _tween_module()
+    dn = lambda i: INGRESS if i == 0 else MAIN if i == 1 else (m.__name__ + '.' + name_of(i) if i < 9 else 'absent.' + name_of(i))
+    out = []
+    config = Configurator()
+    config.add_view(lambda r: (m.LOG.append(('core',)), Response('ok'))[1], name='')
+    config.commit()
+    for ops in case['rounds']:
+        try:
+            for n, a, b, sa, sb in ops:
+                under = None if a is None else (dn(a[0]) if sa and len(a) == 1 else tuple(dn(x) for x in a))
+                over = None if b is None else (dn(b[0]) if sb and len(b) == 1 else tuple(dn(x) for x in b))
+                config.add_tween(dn(n), under=under, over=over)
+            config.commit()
+            tw = config.registry.queryUtility(ITweens)
+            implicit = [12 if x == EXCVIEW else nid(x.split('.')[-1]) for x, _ in tw.implicit()]
+            app = config.make_wsgi_app()
+        except CyclicDependencyError:
+            out.append({'result': 'cyclic'}); break
+        except ConfigurationError as e:
+            s_ = str(e)
+            r = ('rejected' if ('cannot be over INGRESS' in s_ or 'cannot be under MAIN' in s_) else
+                 'cyclic' if 'CyclicDependencyError' in s_ else 'unsat' if 'Unsatisfied' in s_ else
+                 'conflict' if 'conflict' in s_.lower() else 'error:' + s_[:80])
+            out.append({'result': r}); break
+        except Exception as e:
+            out.append({'result': 'raised:' + type(e).__name__}); break
+        del m.LOG[:]
+        Request.blank('/').get_response(app)
+        tr = []
+        for ev in m.LOG:
+            if ev[0] == 'core': tr.append(1000000)
+            elif ev[0] == 'enter': tr.append(nid(ev[1]))
+            else: tr.append(-nid(ev[1]) - 1)
+        out.append({'result': 'ok', 'trace': tr, 'implicit': implicit})
+    return out
+
+
+def check_tween_history(case, mos):
+    """mos: model replies for every prefix (or None).  Returns (mismatch, violation, last_got)"""
+    gots = impl_tween_history(case)
+    mism = viol = None
+    for k, got in enumerate(gots):
+        pc = history_prefix(case, k)
+        rejected = any((b and 0 in b) or (a and 1 in a) for _, a, b, *_ in pc['ops'])
+        mo = mos[k] if mos else None
+        if mo is not None and not mism:
+            user = lambda l: [x for x in l if x not in (12, -13)]
+            if rejected:
+                exp_model = {'result': 'rejected'}
+            elif 'ok' in mo['result']:
+                exp_model = {'result': 'ok', 'trace': user(mo['trace']), 'implicit': mo['result']['ok']}
+            else:
+                exp_model = {'result': 'cyclic' if 'cyclic' in mo['result'] else 'unsat'}
+            if got != exp_model:
+                mism = {'case': case, 'round': k, 'impl': got, 'model': exp_model, 'stream': 'tween-history'}
+        if viol or rejected:
+            continue
+        full = {'flavour': 'tween', 'ops': [[12, None, None, False, False]] + pc['ops']}
+        ex = expected(full)
+        want = 'unsat' if (ex['unsat_b'] or ex['unsat_a']) else 'cyclic' if ex['cyclic'] else 'ok'
+        if got['result'] != want:
+            viol = {'case': case, 'round': k, 'impl': got, 'expected': want, 'stream': 'tween-history',
+                    'detail': 'tween chain after round %d of a multi-commit history: expected outcome %s for the declarations in force' % (k, want)}
+        elif got['result'] == 'ok':
+            tr = got['trace']
+            enters = [x for x in tr if 0 <= x < 1000000]
+            exits = [-x - 1 for x in tr if x < 0]
+            wantl = [x for x in got['implicit'] if x != 12]
+            v = property_ok(full, {'result': {'ok': got['implicit']}})
+            if enters != wantl or exits != wantl[::-1]:
+                viol = {'case': case, 'round': k, 'impl': got, 'expected': {'enter_order': wantl}, 'stream': 'tween-history',
+                        'detail': 'tweens do not wrap in chain order (first outermost)'}
+            elif v:
+                viol = {'case': case, 'round': k, 'impl': got, 'expected': v, 'stream': 'tween-history',
+                        'detail': 'after round %d the implicit tween order does not honour the declarations in force (a re-added name replaces the earlier one): %s' % (k, v)}
+    return mism, viol, (gots[-1] if gots else {'result': 'ok'})
+
+
+def shrink_history(case):
+    def bad(c):
+        try:
+            if c.get('flavour') != 'tween' or c.get('explicit') != [] or not c.get('rounds') or any(not r for r in c['rounds']):
+                return False
+            for r in c['rounds']:
+                for o in r:
+                    if not (isinstance(o, list) and len(o) == 5 and isinstance(o[0], int) and 2 <= o[0] <= 8):
+                        return False
+                    for x in (o[1], o[2]):
+                        if x is not None and not (isinstance(x, list) and x and all(isinstance(y, int) and 0 <= y <= 11 for y in x)):
+                            return False
+                    if not (isinstance(o[3], bool) and isinstance(o[4], bool)):
+                        return False
+            if any(len({o[0] for o in r}) < len(r) for r in c['rounds']):
+                return False
+            return check_tween_history(c, None)[1] is not None
+        except Exception:
+            return False
+    try:
+        small = vfutil.shrink(case, bad, max_steps=300)
+        v = check_tween_history(small, None)[1]
+        return v or check_tween_history(case, None)[1]
+    except Exception:
+        return check_tween_history(case, None)[1]
+
+
 DERIVER_IDS = {}
 
 
@@ -560,6 +695,27 @@ def run(ctx):
         account('tweens', case, got)
     samples += tcases[:1]
 
+    # 2b. tween histories (several commits, re-adds, chain asked for after every round)
+    hcases = [c for _, c in ctx.corpus() if 'rounds' in c] + [gen_tween_history(rng) for _ in range(ctx.n(120, 2500))]
+    flat, index = [], []
+    for c in hcases:
+        ks = list(range(len(c['rounds'])))
+        index.append((len(flat), len(ks)))
+        flat += [model_tween_case(history_prefix(c, k)) for k in ks]
+    hmodel = ctx.run_model(flat) if ctx.driver_path else None
+    dist['history_rounds'] = {}
+    dist['history_readds'] = 0
+    for c, (st, ln) in zip(hcases, index):
+        m, v, got = check_tween_history(c, hmodel[st:st + ln] if hmodel else None)
+        if m: mism.append(m)
+        elif hmodel is not None: agree += 1
+        if v: viol.append(shrink_history(c) or v)
+        account('tween-history', c, got)
+        vfutil.bump(dist['history_rounds'], len(c['rounds']))
+        names = [o[0] for r in c['rounds'] for o in r]
+        if len(set(names)) < len(names): dist['history_readds'] += 1
+    samples += hcases[-1:]
+
     # 3. view derivers through the configurator
     dcases = [{'flavour': 'deriver', 'ops': []}] + [gen_deriver_case(rng, gen) for _ in range(ctx.n(150, 3000))]
     dmodel = ctx.run_model([{'first': 0, 'last': 1, 'defBefore': None, 'defAfter': [0], 'explicit': [],
@@ -572,7 +728,7 @@ def run(ctx):
         account('derivers', case, got)
     samples += dcases[1:2]
 
-    total = len(cases) + len(tcases) + len(dcases)
+    total = len(cases) + len(tcases) + len(dcases) + len(hcases)
     excl = {'flavour': 'plain', 'ops': [[2, [], None, False, False], [2, None, [1], False, True]]}
     notes = ['excluded point (Props.C18.empty_alternatives_excluded) replayed on the real code: %s' % json.dumps(impl_direct(excl)['result']),
              'excluded point: an EMPTY alternatives list (after=[] / before=[]) can never be satisfied and leaves a stale '
@@ -618,6 +774,10 @@ def finish_search(ctx, viol, n, exhaustive):
     for _ in range(300):
         _, v, _ = check_tween(gen_tween_case(ctx.rng), None)
         if v: viol.append(v); break
+    for _ in range(400):
+        hc = gen_tween_history(ctx.rng)
+        _, v, _ = check_tween_history(hc, None)
+        if v: viol.append(shrink_history(hc) or v); break
     for _ in range(300):
         _, v, _ = check_deriver(gen_deriver_case(ctx.rng, gen), None, gen)
         if v: viol.append(v); break
@@ -628,10 +788,14 @@ def replay(ctx, rep):
     case = rep.get('case')
     if case is None:
         return {'violates': False, 'note': 'replay names broken obligations only', 'broken': rep.get('broken_obligations')}
-    stream = rep.get('stream') or ('derivers' if case.get('flavour') == 'deriver' else 'tweens' if 'explicit' in case else 'direct')
+    stream = rep.get('stream') or ('derivers' if case.get('flavour') == 'deriver' else 'tween-history' if 'rounds' in case else 'tweens' if 'explicit' in case else 'direct')
     if stream == 'direct':
         mo = ctx.run_model([model_case(case)])[0] if ctx.driver_path else None
         m, v, got = check_direct(case, mo)
+    elif stream == 'tween-history' or 'rounds' in case:
+        mos = ctx.run_model([model_tween_case(history_prefix(case, k)) for k in range(len(case['rounds']))]) if ctx.driver_path else None
+        m, v, got = check_tween_history(case, mos)
+        mo = mos
     elif stream == 'tweens':
         mo = ctx.run_model([model_tween_case(case)])[0] if ctx.driver_path else None
         m, v, got = check_tween(case, mo)
